@@ -278,8 +278,11 @@ WEAK3 = ["x + ZeroExt(1, y) != ZeroExt(1, z)", "x ^ ZeroExt(1, y) != ZeroExt(1, 
 
 def gen_history(rng, length, calpha=CONSTRAINTS, ealpha=EXPRS, balpha=BOOLS, uni=None, max_solvers=4,
                 weights=None, threads=0, replace=0.0, replace_any=False, symv=0.0, first_eq=0.0, contra=0.0, prefix=None, pickle_all=0.0,
-                core_extra=0.0, annotate=0.0, ann_kinds=(1, 2, 3), repl_noinval=0.0):
-    """repl_noinval: share of the user-level replacements (`replace`) made with invalidate_cache=False - of any variable; the
+                core_extra=0.0, annotate=0.0, ann_kinds=(1, 2, 3), repl_noinval=0.0, after_downsize=0.0):
+    """after_downsize: share of downsize() calls that come as a burst - [everything about an expression e (all values / an
+    extremum), mostly one the solver was asked about before] downsize(), ONE small question (a single value, solution(),
+    satisfiable() under an extra constraint), everything about e again;
+    repl_noinval: share of the user-level replacements (`replace`) made with invalidate_cache=False - of any variable; the
     solver that makes one (and its later branches) is no longer judged by run_history, all the others are;
     core_extra: share of unsat_core() calls that pass extra constraints (what-if cores), a part of them contradicting
     a constraint the solver holds;  annotate: share of added constraints that carry an annotation (`Ann(c, k)`, k from ann_kinds;
@@ -295,7 +298,8 @@ def gen_history(rng, length, calpha=CONSTRAINTS, ealpha=EXPRS, balpha=BOOLS, uni
         # thread hand-off: the same history, each call tagged with the thread that makes it (runs of calls per thread)
         hist, t = gen_history(rng, length, calpha, ealpha, balpha, uni, max_solvers, weights, replace=replace, replace_any=replace_any,
                               symv=symv, first_eq=first_eq, contra=contra, prefix=prefix, pickle_all=pickle_all,
-                              core_extra=core_extra, annotate=annotate, ann_kinds=ann_kinds, repl_noinval=repl_noinval), 0
+                              core_extra=core_extra, annotate=annotate, ann_kinds=ann_kinds, repl_noinval=repl_noinval,
+                              after_downsize=after_downsize), 0
         for d in hist[len(prefix or []):]:      # a directed opening keeps the threads it names
             if rng.random() < 0.3:
                 t = rng.randrange(threads + 1)
@@ -419,6 +423,24 @@ def gen_history(rng, length, calpha=CONSTRAINTS, ealpha=EXPRS, balpha=BOOLS, uni
                 d = {"s": s, "op": "satisfiable", "extra": []}
         elif op in ("split", "combine", "merge", "blank_copy"):
             pass
+        elif op == "downsize" and after_downsize and rng.random() < after_downsize:
+            e = rng.choice(q) if q and rng.random() < 0.7 else rng.choice(bv_exprs)
+
+            def everything():
+                return {"s": s, "op": "eval", "e": e, "n": rng.choice([20, 40]), "extra": []} if rng.random() < 0.5 else \
+                    {"s": s, "op": rng.choice(["min", "max"]), "e": e, "signed": rng.random() < 0.5, "extra": []}
+            if rng.random() < 0.6:
+                hist.append(everything())
+            if e not in q:
+                q.append(e)
+            hist.append(d)
+            k = rng.random()
+            hist.append({"s": s, "op": "eval", "e": rng.choice(bv_exprs), "n": 1, "extra": []} if k < 0.5 else
+                        {"s": s, "op": "solution", "e": rng.choice(bv_exprs), "v": rng.randrange(16), "extra": []} if k < 0.75 else
+                        {"s": s, "op": "satisfiable", "extra": [rng.choice(calpha)]})
+            for _ in range(rng.choice([1, 2])):
+                hist.append(everything())
+            continue
         elif op == "branch":
             if nsolv >= max_solvers:
                 continue
@@ -1915,7 +1937,7 @@ def _norm_out(d, out):
         if len(out[1]) >= d["n"]:
             return ("ok", "n values")        # more exist than were asked for: which ones come back is free
         return ("ok", tuple(sorted(tuple(t) if isinstance(t, (list, tuple)) else (t,) for t in out[1])))
-    if d["op"] in ("add", "simplify", "downsize", "branch", "pickle", "blank_copy"):
+    if d["op"] in ("add", "simplify", "downsize", "branch", "pickle", "blank_copy", "drop"):
         return ("ok",)
     if d["op"] in ("min", "max"):
         # an optimum is a bit pattern: the caches hand back the unsigned reading, the solver path the signed one
@@ -1967,19 +1989,65 @@ def run_twin(uni, cls, cfg, hist, mode, cut=0):
             bz._tls.solver = None
 
 
-def twin_search(uni, rng, cls, mode, n, length, weights=None, approx=0.0):
-    """random histories with user-level replacements; returns the shrunk failing ones (each reproduced twice)"""
+def gen_twin_rereplace(rng, tail=6, weights=None):
+    """(history, cut) for run_twin(mode "restored"): add_replacement(v, c1) - sometimes a second variable too, sometimes a
+    constraint next to it -, then questions about COMPOUND expressions over v (what they become under the replacement is worked
+    out and remembered); the copy through pickle is taken HERE; afterwards the replacement CHANGES on both (add_replacement(v, c2);
+    sometimes first a branch, sometimes downsize()) and the same expressions are asked about again, then a random tail."""
+    v = rng.choice(["x", "x", "y", "z"])
+    ex = [e for e in EXPRS if v in _vars_of(e) and e != v]
+    own = [e for e in ex if _vars_of(e) == {v}] or ex
+    c1 = rng.randrange(8)
+    c2 = (c1 + rng.randrange(1, 8)) % 8
+    rp = lambda u, c, s=0: {"s": s, "op": "add", "cs": ["(%s) == %d" % (u, c)], "repl": [u, c]}  # noqa: E731
+    ev = lambda e, s=0: {"s": s, "op": "eval", "e": e, "n": 40, "extra": []}  # noqa: E731
+    hist = [rp(v, c1)]
+    if rng.random() < 0.3:
+        u = rng.choice([t for t in ("x", "y", "z") if t != v])
+        hist.append(rp(u, rng.randrange(8)) if rng.random() < 0.5 else _add([rng.choice(_ranges(u))]))
+    asked = [rng.choice(own)] + [rng.choice(ex) for _ in range(rng.choice([0, 1, 2]))]
+    for e in asked:
+        hist.append(ev(e) if rng.random() < 0.7 else {"s": 0, "op": rng.choice(["min", "max"]), "e": e, "signed": False, "extra": []})
+    cut = len(hist)
+    if rng.random() < 0.3:
+        hist.append(ev(rng.choice(asked)))
+    t = 0
+    k = rng.random()
+    if k < 0.2:
+        hist.append({"s": 0, "op": "branch"})
+        t = rng.choice([0, 1])
+    elif k < 0.3:
+        hist.append({"s": 0, "op": "downsize"})
+    hist.append(rp(v, c2, t))
+    for e in asked + [rng.choice(ex)]:
+        hist.append(ev(e, t))
+    if t:
+        hist.append(ev(rng.choice(asked), 0))
+    w = weights or {"add": 24, "satisfiable": 8, "eval": 14, "batch_eval": 5, "min": 8, "max": 8, "solution": 8, "simplify": 3,
+                    "downsize": 8, "branch": 4}
+    return gen_history(rng, tail, weights=w, replace=0.3, replace_any=True, prefix=hist), cut
+
+
+def twin_search(uni, rng, cls, mode, n, length, weights=None, approx=0.0, directed=0.0):
+    """random histories with user-level replacements; returns the shrunk failing ones (each reproduced twice);
+    directed: share of the histories (mode "restored") that open as gen_twin_rereplace says"""
     w = weights or {"add": 24, "satisfiable": 8, "eval": 14, "batch_eval": 5, "min": 8, "max": 8, "solution": 8, "simplify": 3,
                     "downsize": 8, "branch": 4}
     found, ran = [], 0
     for _ in range(n):
-        hist = gen_history(rng, length, weights=w, replace=0.3, replace_any=rng.random() < 0.6)
+        dcut = None
+        if directed and mode == "restored" and rng.random() < directed:
+            hist, dcut = gen_twin_rereplace(rng, tail=length // 2, weights=w)
+        else:
+            hist = gen_history(rng, length, weights=w, replace=0.3, replace_any=rng.random() < 0.6)
         if approx:
             # hybrid solvers: some of the queries in approximate mode (the approximate side keeps replacements of its own)
             for d in hist:
                 if d["op"] in ("satisfiable", "eval", "batch_eval", "min", "max", "solution") and rng.random() < approx:
                     d["approx"] = True
         cut = rng.randrange(1, max(2, len(hist) - 2)) if mode == "restored" else 0
+        if dcut is not None:
+            cut = dcut
         ran += len(hist)
         cfg = {"track": False, "reuse": False}
         f = run_twin(uni, cls, cfg, hist, mode, cut)
@@ -2115,6 +2183,10 @@ def signature(prop, cls, cfg, hist, idx, kind):
         if q.get("fault") is not None and (q["s"] == d["s"] or True):
             preds.append("giveup-in-" + q["op"])
             break
+    if any(q.get("t") for q in hist[:idx + 1]):
+        preds.append("threads")
+    if any(q["op"] == "drop" for q in hist[:idx]):
+        preds.append("after-drop")
     if cfg.get("track"):
         preds.append("track")
     if cfg.get("reuse"):
